@@ -468,6 +468,12 @@ def get_paragraph_data(text, remove_pgp_signature=False):
     if payload:
         items.append(('unknown', payload))
 
+    # a first line that starts with "From " is treated as an envelope header by
+    # the email parser: we do not ignore it either.
+    unixfrom = mls.get_unixfrom()
+    if unixfrom:
+        items.insert(0, ('unknown', unixfrom))
+
     data = {}
     for name, value in items:
         # we do not preserve case: debian field names are case-insensitive AND
